@@ -287,7 +287,7 @@ var summaryEncoding = map[string]Summary{
 	// func NewDecoder(r io.Reader) *Decoder
 	"encoding/json.NewDecoder": SingleVarArgPropagation,
 	"(*encoding/json.Decoder).Decode": {
-		[][]int{{0}, {0, 1}},
+		[][]int{{0, 1}, {0, 1}},
 		[][]int{{0}, {0}},
 	},
 	"(*encoding/json.Decoder).UseNumber": {
